@@ -607,6 +607,113 @@ static void sceneResizeCornersCase(vh::Rng &r, bool thorough) {
     if (r.coin(1, 3)) { int budget = 40; solvePhase(r, sc, r.coin() ? vpsc::XDIM : vpsc::YDIM, 1, 40, budget); }
 }
 
+
+// ------------------------------------------------------------------ grid-aligned ties
+//
+// scene-grid-ties: node sides lie on a 10-grid, so that a node side is EXACTLY on the scan line of
+// another node's corner (the `c->pos==mid` tie of transferStraightConstraintChoose, the `==` event
+// ties of CompareEvents). Within ONE TopologyConstraints instance several nodes are dragged (weight
+// 10000) across edges; solve() is looped as in ColaTopologyAddon::moveTo and the state is dumped after
+// every call. Every scene is passed through a random symmetry of the square (transposition swaps the
+// pass dimension), so XDIM and YDIM passes see the same geometry.
+//  kind 0 "kiss": edge A->B rising to the right, node W below it with its left side on x=m, node X
+//                 above it with its right side on the same x=m; W is pushed up, X down, both beyond
+//                 the edge: W's TL corner bends the edge at x=m, then X's BR corner arrives at that bend.
+//  kind 1 random: 10x10 / 10x20 / 20x10 nodes in distinct, non-adjacent grid cells, straight edges,
+//                 2-4 nodes dragged by multiples of 5 in the pass dimension.
+static void dragPass(Scene &sc, vpsc::Dim dim, const std::vector<double> &des, const std::vector<double> &wts, int &budget) {
+    unsigned n = sc.nodes.size();
+    vpsc::Variables vs;
+    for (unsigned i = 0; i < n; ++i) vs.push_back(new vpsc::Variable(i, sc.rs[i]->getCentreD(dim)));
+    topology::setNodeVariables(sc.nodes, vs);
+    vpsc::Constraints cs;
+    g_dim = (int) dim;
+    {
+        topology::TopologyConstraints t(dim, sc.nodes, sc.edges, nullptr, vs, cs);
+        printf("D %d", (int) dim);
+        for (unsigned i = 0; i < n; ++i) {
+            vs[i]->desiredPosition = des[i]; vs[i]->weight = wts[i];
+            printf(" %s %s", hx(des[i]).c_str(), hx(wts[i]).c_str());
+        }
+        printf("\n"); fflush(stdout);
+        int loop = 100; bool again;
+        do { again = t.solve(); printState("solve", (int) dim, sc.nodes, sc.edges); --budget; } while (again && --loop > 0 && budget > 0);
+    }
+    for (size_t i = 0; i < cs.size(); ++i) delete cs[i];
+    for (size_t i = 0; i < vs.size(); ++i) delete vs[i];
+    for (unsigned i = 0; i < n; ++i) sc.nodes[i]->var = nullptr;
+}
+
+static void sceneGridTiesCase(vh::Rng &r, bool thorough) {
+    Scene sc;
+    Sym sym = {r.coin(), r.coin(), r.coin()};
+    vpsc::Dim canonDim = vpsc::YDIM;                       // canonical pass is vertical
+    double q[4];
+    int kind = r.coin(1, 2) ? 0 : 1;
+    std::vector<double> desC;                               // desired canonical-y centre per node (kind 0)
+    std::vector<double> wts;
+    int budget = thorough ? 200 : 120;
+    if (kind == 0) {
+        long bx = 10 * r.range(4, 9), by = 10 * r.range(2, 5);
+        long m = 10 * r.range(2, bx / 10 - 2);
+        double em = (double) by * (double) m / (double) bx;                 // height of the edge at x=m
+        double shift = r.coin(1, 6) ? 0.5 : 0;                              // occasional non-tied control
+        double wTop = std::floor(em) - (double) r.range(1, 6), xBot = std::ceil(em) + (double) r.range(5, 20);
+        long ww = 10 * r.range(1, 2), xw = 10 * r.range(1, 2);
+        double rect[4][4] = {{-5, 5, -5, 5}, {(double) bx - 5, (double) bx + 5, (double) by - 5, (double) by + 5},
+                             {(double) m, (double) (m + ww), wTop - 10, wTop},
+                             {(double) (m - xw) - shift, (double) m - shift, xBot, xBot + 10}};
+        for (int i = 0; i < 4; ++i) { sym.rect(rect[i][0], rect[i][1], rect[i][2], rect[i][3], q); sc.addNode(q[0], q[1], q[2], q[3]); }
+        double dW = (wTop - 5) + (em - wTop) + (double) r.range(3, 15), dX = (xBot + 5) - (xBot - em) - (double) r.range(3, 15);
+        double d[4] = {0, (double) by, dW, dX};
+        for (int i = 0; i < 4; ++i) { desC.push_back(d[i]); wts.push_back(i >= 2 ? 10000.0 : 1.0); }
+        std::vector<std::pair<unsigned, int> > p;
+        p.push_back(std::make_pair(0u, (int) EP::CENTRE)); p.push_back(std::make_pair(1u, (int) EP::CENTRE));
+        if (pathValid(sc, p)) addEdge(sc, p, 10);
+    } else {
+        int n = (int) r.range(4, thorough ? 9 : 7), tries = 0;
+        std::set<std::pair<long, long> > used;
+        while ((int) sc.rs.size() < n && tries++ < 400) {
+            long cx = r.range(0, 9), cy = r.range(0, 9), w = r.coin(1, 4) ? 2 : 1, h = (w == 1 && r.coin(1, 4)) ? 2 : 1;
+            bool ok = true;
+            for (long i = -1; i <= w && ok; ++i) for (long j = -1; j <= h && ok; ++j) ok = !used.count(std::make_pair(cx + i, cy + j));
+            if (!ok) continue;
+            for (long i = 0; i < w; ++i) for (long j = 0; j < h; ++j) used.insert(std::make_pair(cx + i, cy + j));
+            sym.rect(10.0 * cx, 10.0 * (cx + w), 10.0 * cy, 10.0 * (cy + h), q);
+            sc.addNode(q[0], q[1], q[2], q[3]);
+        }
+        straightEdges(r, sc, (int) r.range(1, 5));
+    }
+    printHeader(sc);
+    if (sc.nodes.size() < 2 || sc.edges.empty()) return;
+    vpsc::Dim dim = sym.tr ? (canonDim == vpsc::YDIM ? vpsc::XDIM : vpsc::YDIM) : canonDim;
+    unsigned n = sc.nodes.size();
+    if (kind == 0) {
+        // canonical y -> actual coordinate in the pass dimension
+        std::vector<double> des(n);
+        for (unsigned i = 0; i < n; ++i) {
+            double x = 0, y = desC[i];
+            // only the y component matters: transform (0,y) and read the pass-dimension coordinate
+            sym.pt(x, y);
+            des[i] = (dim == vpsc::XDIM) ? x : y;
+        }
+        dragPass(sc, dim, des, wts, budget);
+    }
+    int passes = (kind == 0) ? (int) r.range(0, 2) : (int) r.range(2, thorough ? 6 : 4);
+    for (int ps = 0; ps < passes && budget > 0; ++ps) {
+        if (kind == 1 || ps > 0) dim = r.coin() ? vpsc::XDIM : vpsc::YDIM;
+        std::vector<double> des(n), w(n, 1.0);
+        for (unsigned i = 0; i < n; ++i) des[i] = sc.rs[i]->getCentreD(dim);
+        int drags = (int) r.range(2, 4);
+        for (int j = 0; j < drags; ++j) {
+            unsigned id = (unsigned) r.range(0, n - 1);
+            des[id] = std::floor(des[id]) + 5.0 * (double) r.range(-8, 8);
+            w[id] = 10000;
+        }
+        dragPass(sc, dim, des, w, budget);
+    }
+}
+
 // ------------------------------------------------------------------ ConstrainedFDLayout + addon
 
 struct SnapAddon : public topology::ColaTopologyAddon {
@@ -803,6 +910,14 @@ int main(int argc, char **argv) {
         vh::Rng r = vh::caseRng(a.seed, k);
         vh::beginCase(k, "scene-resize-corners");
         runIsolated([&]() { sceneResizeCornersCase(r, thorough); });
+        vh::endCase();
+    }
+    long nGrid = (thorough ? 400 : 80) * a.scale;
+    for (long c = 0; c < nGrid; ++c, ++k) {
+        if (!a.want(k)) continue;
+        vh::Rng r = vh::caseRng(a.seed, k);
+        vh::beginCase(k, "scene-grid-ties");
+        runIsolated([&]() { sceneGridTiesCase(r, thorough); });
         vh::endCase();
     }
     return 0;
